@@ -1482,7 +1482,7 @@ class DependencyMapper(CombineMapper[R, Never, []]):
 
     @override
     def map_named_call_result(self, expr: NamedCallResult) -> R:
-        return self.rec(expr._container)
+        return self.combine(frozenset([expr]), self.rec(expr._container))
 
     @override
     def clone_for_callee(self, function: FunctionDefinition) -> Self:
